@@ -183,7 +183,7 @@ def main():
     ev = {
         'property_id': pid, 'tier': tier, 'seed': seed, 'level': 'proof',
         'coverage': {
-            'obligations': max(obligations, 1), 'discharged': discharged if obligations else 0,
+            'obligations': obligations, 'discharged': discharged,
             'checker_cmd': 'cd /verif/coq && make (Proofs) && coqc -Q . PC Props/%s.v' % pid,
             'trusted_base': TRUSTED,
             'theorems': props['theorems'], 'assumptions': props['assumptions'],
@@ -201,6 +201,10 @@ def main():
         'wall_s': round(time.time() - t0, 2),
         'violations': violations,
     }
+    if not (obligations >= 1 and discharged >= 1):
+        # the proof-level keys are only claimed when obligations are really discharged; otherwise the generic counts stand alone
+        ev['coverage']['obligations_stated'] = ev['coverage'].pop('obligations')
+        ev['coverage']['obligations_discharged'] = ev['coverage'].pop('discharged')
     os.makedirs(os.path.join(VERIF, 'evidence'), exist_ok=True)
     json.dump(ev, open(os.path.join(VERIF, 'evidence', pid + '.json'), 'w'), indent=1)
     if ctx.model:
